@@ -16,6 +16,8 @@ PIPE_NOTE = ('Trusted: the simulator (SimLoop keeps asyncio FIFO order; time mov
              "ndn's own network-layer decoders. Sampled, not exhaustive; abstains within 1.5 ms of a deadline tie.")
 
 ENGINES_META = [
+    {'name': 'trustchain', 'path': 'engines/trustchain.py', 'serves_properties': ['C14'],
+     'kind_free_text': 'lvs_validator/CascadeChecker instances on a v1 NDNApp, certificate-serving peer with fault policies, independent chain walker'},
     {'name': 'keychain', 'path': 'engines/keychain.py', 'serves_properties': ['C15'],
      'kind_free_text': 'KeychainSqlite3 + TpmFile over a fault-injecting storage seam; per-history enumeration of error and crash points'},
     {'name': 'sigs', 'path': 'engines/sigs.py', 'serves_properties': ['C02'],
@@ -187,6 +189,28 @@ CHECKS['C15'] = dict(
           'wall clock (utils.time, security_v2.datetime)'],
     rule='seed -> history of 3-14 (thorough: 3-25) operations; evaluations = sampled histories, each run 1 + 2K times (K = its '
          'storage steps); non-trivial: >=3 operations and >=4 storage steps; distinct = hash of the operation-kind sequence')
+
+
+CHECKS['C14'] = dict(
+    engine='trustchain', design_ref='5 (C14)', level='exploration',
+    technique='deterministic simulation of certificate retrieval (virtual-time loop, certificate-serving peer with per-name '
+              'fault policies, store changes between validator instances) + independent chain walker as oracle',
+    text='Generated certificate hierarchies (depth 1-4, EC and RSA keys, real self_sign/derive_cert) with a matching Light '
+         'VerSec schema compiled by the real compiler; 1-3 lvs_validator / CascadeChecker instances created at scripted times, '
+         'with the certificate store changing in between (withdrawn, replaced by an attacker\'s certificate); one deviation per '
+         'run (forged signature in packet or certificate, substituted key, missing certificate, Nack, transient loss, issuer of '
+         'the wrong shape or constraint value, unsigned/digest-signed packet, loop, bad anchor). The verdict of every instance '
+         'must equal that of an independent walker: schema signing check at every link, signature verified with pycryptodomex '
+         'over the independently computed signed portion, every certificate retrievable now.',
+    note="Trusted: the schema's own signing check (Checker.check; its correctness is C12, not claimed), pycryptodomex, the "
+         'independent TLV reader, SimLoop. Under transient loss only safety is judged (never accept without a chain). Only RSA '
+         'and ECDSA links are generated (the key types the cascade checker dispatches on).',
+    real=REAL_COMMON + ['ndn.app_support.light_versec (compiler, Checker, lvs_validator)', 'ndn.security.validator.cascade_validator',
+                        'ndn.security.validator.known_key_validator, digest_validator.union_checker', 'ndn.app.NDNApp (express_interest pipeline used for certificate fetches)',
+                        'ndn.app_support.security_v2 (self_sign, derive_cert)', 'ECDSA/RSA signers'],
+    stub=STUB_COMMON + ['the certificate-serving network and its fault policies', 'ECDSA nonces (seeded)', 'security_v2.datetime (simulated clock)'],
+    rule='seed -> hierarchy + schema + deviation + 1-3 validator instances + 1-9 validations + store changes; non-trivial: >=1 '
+         'validation and (a deviation or >=2 instances); distinct = order signature of instance/store/validate/fetch events')
 
 
 def run_check(prop, tier):
